@@ -13,39 +13,53 @@ LEVEL = "proof"
 MANIFEST_ENTRY = {
     "category": "proof",
     "text": "Lean 4 theorems over an executable model of imaging_utils' registration code (the FFT formula "
-            "real(ifft2(fft2(ref)*conj(fft2(im)))) as defining DFT sums, first-maximum argmax, parabolic refinement, Python float "
-            "modulo centring, torch half-pixel rounding, the upsampling-grid index arithmetic + matrix-multiply DFT patch of both "
-            "the NumPy and the torch variant, the phase-ramp aligned image): the correlation theorem (FFT formula = spatial circular "
-            "cross-correlation, from the shared spectral core), the autocorrelation peaks at zero lag (strictly unless the image is "
-            "periodic), an integer-shifted copy is located exactly anywhere in the periodic cell by both estimators, the returned "
-            "aligned image (phase ramp = roll for integer shifts) reproduces the reference, swapping the images negates the result "
-            "for the NumPy and the torch estimator (torch.round is odd), both are invariant under a common intensity scale "
-            "(shift_scale_invariant), and identical images give zero shift at every upsampling "
-            "factor: the patch maximum sits on the grid point the index->offset conversion maps to 0, it is strict exactly when no "
-            "other patch offset leaves all non-zero Fourier coefficients in phase (proved iff), which holds for every image of at "
-            "least 3x3 pixels with non-zero lowest coefficients on both axes (hypothesis-free corollary + 3x3 witness for all "
-            "factors); ties do occur for single-column and constant images (counterexample theorems). Sub-pixel accuracy is "
-            "measured only. The model is tied to the code on every run by exact (integer image) and float64 differential runs of "
-            "the public functions (keyword and positional call forms, parameter order pinned), their kernels and their users "
-            "(tomography, direct ptychography, drift align_translation), over intensity scales 1e-12..1e6, a low-contrast pedestal "
-            "class and call histories on shared arrays.",
+            "real(ifft2(fft2(ref)*conj(fft2(im)))) as defining DFT sums, first-maximum argmax, parabolic refinement with the zero-denominator "
+            "guard, Python float modulo centring, torch half-pixel rounding, the upsampling-grid index arithmetic + matrix-multiply DFT patch "
+            "of both the NumPy and the torch variant, the phase-ramp aligned image, and the ENTRY POINTS with their dispatch on "
+            "upsample_factor: cross_correlation_shift, cross_correlation_shift_torch, align_images_fourier_torch): the correlation theorem "
+            "(FFT formula = spatial circular cross-correlation), the autocorrelation peaks at zero lag (strictly unless the image is "
+            "periodic), an integer-shifted copy is located exactly anywhere in the periodic cell by both entry points FOR EVERY UPSAMPLING "
+            "FACTOR (0, 1, 2, ...) and every max_shift that leaves the true lag inside the search disc (the upsampled patch of a shifted "
+            "copy around the coarse peak is, entry by entry, the patch of identical images around zero: DFT shift theorem + periodicity of "
+            "the kernels), the returned aligned image reproduces the reference, swapping the images negates the result on the "
+            "non-upsampling branches, both estimators are invariant under a common intensity scale, and identical images give zero shift "
+            "at every factor through both entry points; the strict patch maximum these need is characterised exactly (iff) and holds for "
+            "every image of at least 3x3 pixels with non-zero lowest Fourier coefficients (hypothesis-free corollaries + a 3x3 witness "
+            "for all factors); ties do occur for single-column and constant images (counterexample theorems; the single-row/column case "
+            "is a recorded finding on the real code). Sub-pixel accuracy is measured only. The model is tied to the code on every run "
+            "by exact (integer image) and float64 differential runs of the public functions (keyword and positional call forms, parameter "
+            "order pinned), their kernels, their internal stages (coarse position and centre handed to the kernels, patch argmax), "
+            "max_shift x upsampling incl. a shift exactly on the threshold, their users (tomography, direct ptychography, drift "
+            "align_translation), intensity scales 1e-12..1e6, container x dtype x memory-layout classes of the arguments, degenerate "
+            "shapes (axis of length 1 or 2), and call histories on the module: persistent arrays / tensors / FFTs re-used across valid "
+            "calls, rejected calls (wrong argument kinds, unusable dtypes, shape mismatch, options of the wrong type, raising part-way) "
+            "and caller-side in-place updates, every valid call compared with a freshly loaded copy of the module.",
     "note": "Trusted: Lean kernel + propext/Classical.choice/Quot.sound; np.fft/torch.fft are assumed to compute the defining "
             "sums (exercised by every stream); IEEE rounding; torch float32 kernel precision in dftUpsample_torch. Moved from "
-            "measured to proved in round 2: the correlation theorem, the Fourier shift theorem for the aligned image, the strict "
-            "patch-maximum hypothesis (exact characterisation + sufficient condition + non-vacuity witness), torch swap negation. "
-            "Still measured only: the 'within 1/upsample_factor' clause for band-limited sub-pixel shifts (paths that do not "
-            "upsample are held to one pixel), swap negation of the upsampled branches (NumPy exact to 1e-7, torch to 1/up).",
-    "technique": "Lean 4 proof (sums over the periodic cell, argmax invariants, roots-of-unity orthogonality/Plancherel, trigonometric bound, floor arithmetic) + model-vs-implementation correspondence",
+            "measured to proved in growth round 5: integer-shift exactness on the upsampled branches (NumPy up >= 2, torch up >= 3) and "
+            "with max_shift, the dispatch on the factor (one statement for all factors), zero shift for identical images through the "
+            "entry points. Still measured only: the 'within 1/upsample_factor' clause for band-limited sub-pixel shifts (paths that do "
+            "not upsample are held to one pixel), swap negation of the upsampled branches (NumPy exact to 1e-7, torch to 1/up), "
+            "statelessness of the module (no theorem: the code has no state; measured by the history stream against a fresh module). "
+            "Recorded findings: on an image with a single row/column the upsampled branches return a non-zero shift (-0.5 / 0.25) "
+            "along the axis of length 1 (patch tie, proved to be unavoidable for first-maximum argmax).",
+    "technique": "Lean 4 proof (sums over the periodic cell, argmax invariants, roots-of-unity orthogonality/Plancherel, DFT shift theorem, trigonometric bound, floor arithmetic) + model-vs-implementation correspondence",
 }
 RULE = ("a case is one estimator call on one image pair; distinct non-trivial = distinct (stream, variant, shape parity/squareness, "
         "upsample factor, shift class [zero/within half/beyond half/at half/sub-pixel], max_shift used, fft_input/fft_output flags) "
-        "with a non-constant image; the drift stream adds (canvas parity, stack size, upsample factor), the history stream the sequence of (return_shifted_image, fft_output, swapped) calls made on one shared pair of arrays")
+        "with a non-constant image; the drift stream adds (canvas parity, stack size, upsample factor), the history stream the sequence of (return_shifted_image, fft_output, swapped) calls made on one shared pair of arrays; "
+        "mhist: the sequence of op kinds of one module history (valid torch/NumPy call with its option flags, rejected call with its kind, caller-side in-place update); "
+        "forms: (variant, argument form, up class, fft_input, return_shifted_image); degen: (rows<3, cols<3, up class, shift class); stages: (shape, factor, max_shift used, true lag inside the disc)")
 TRUSTED = ["np.fft.fft2/ifft2 and torch.fft.fft2/ifft2 compute the defining DFT sums (exercised by every stream)",
            "torch.argmax/np.argmax return the first maximum; torch.round rounds half to even",
-           "the correlation theorem (FFT product = spatial circular cross-correlation) is proved (Props/C13.correlation_theorem); the exact stream additionally measures it on the real FFTs"]
+           "the correlation theorem (FFT product = spatial circular cross-correlation) is proved (Props/C13.correlation_theorem); the exact stream additionally measures it on the real FFTs",
+           "importlib loading imaging_utils.py under a fresh module name gives a copy without the state of the copy under test (the history oracle)"]
 ASSUMPTIONS = ["image pairs whose correlation maximum is not unique (exact integer test) or whose float margins are below 1e-6 are rejected by the generator (counted in the distribution)",
                "sub-pixel accuracy (<= 1/upsample_factor) is evaluated on band-limited images without Nyquist content only; paths that do not upsample (NumPy up<=1, torch up<=2: parabolic estimate, torch rounds it to half a pixel) are held to one pixel",
-               "the torch upsampling kernels are built in float32 by the library; that path is compared with tolerance 5e-4"]
+               "the torch upsampling kernels are built in float32 by the library; that path is compared with tolerance 5e-4",
+               "model comparisons are skipped (and counted) where an argmax is decided by rounding: exact ties of the masked table, a patch wider than a 3-pixel axis that holds its maximum twice, the patch along an axis of length 1",
+               "an axis of length 1: the applied translation is the identity, 0 is required back; the upsampled branches return -0.5 / 0.25 there (known findings np-/torch-axis-of-length-1-upsampled)",
+               "rejected calls in histories are whatever the unchanged code rejects (TypeError/ValueError/RuntimeError/NotImplementedError/ModuleNotFoundError from NumPy/torch); the exception type is recorded, not compared"]
 EXPLANATION = ("Theorems in Props/C13.lean are about Model/Registration.lean; every run drives the real estimators and the model "
                "with the same image pairs and compares peaks, refinements, patches and final shifts.")
 
@@ -990,7 +1004,9 @@ def run(ctx):
             run_case(ctx, drv, gen_history(rng.fork(i)))
         # growth round 5 (c13_ext.py): histories on the module with rejected calls, input forms, degenerate shapes, internal stages
         rng = ctx.rng.fork(8)
-        for i in range(ctx.n(70, 700)):
+        for case in X.fixed_mhist(rng.fork(10 ** 6)):      # fixed block: every rejected-call kind x family x dtype, in-place updates
+            run_case(ctx, drv, case)
+        for i in range(ctx.n(50, 700)):
             run_case(ctx, drv, X.gen_mhist(rng.fork(i)))
         rng = ctx.rng.fork(9)
         for i in range(ctx.n(80, 800)):
@@ -999,6 +1015,8 @@ def run(ctx):
         for i in range(ctx.n(50, 500)):
             run_case(ctx, drv, X.gen_degen(rng.fork(i)))
         rng = ctx.rng.fork(11)
+        for case in X.fixed_stages(rng.fork(10 ** 6)):
+            run_case(ctx, drv, case)
         for i in range(ctx.n(50, 500)):
             run_case(ctx, drv, X.gen_stages(rng.fork(i)))
     finally:
